@@ -155,6 +155,8 @@ example : startLines (events ["> - a".toList, [], "# h".toList]) = [1, 1, 1, 1, 
   `peelEmit` (fuel = number of paragraph lines; each definition covers ≥ 1 line), `procEmph`
   (fuel = Σ(1 + run length); each call removes an item or at least one delimiter character).
   Exhausting fuel returns the state unchanged, so the stream theorems above hold regardless.
+  That the fuel is in fact never exhausted at the model's call sites is proved in LeanMarkFuel.lean
+  (`stepLine_fuel`, `closeLeaf_peel_fuel`, `lrdOnlyGo_fuel_add`, `resolveEmph_fuel`).
 -/
 theorem L_total (doc : List Char) : ∃ es : List Ev, events (docLines doc) = es := ⟨_, rfl⟩
 
